@@ -23,6 +23,7 @@ def run(ctx):
   verdicts = ringsys.judge(ctx, traces, 'C05 scenarios')
   ringcheck.report(ctx, traces, verdicts, ringcheck.C05_FLAGS)
   ringcheck.negative_controls(ctx, traces, verdicts)
+  ringcheck.manager_routes(ctx)
   t = traces[0]
   ctx.sample(dict(kind='controlled-table scenario', nodes=t['nodes'], refpos=t['refpos'], ops=t['ops'], rf=t['rf'],
                   diverse=t['diverse'], last_routes=t['steps'][-1]['routes'][:6] if t['steps'] else []))
